@@ -7,18 +7,33 @@ Local Open Scope N_scope.
 
 (** ** Weakest-precondition rule for one API request *)
 
+Lemma call_gen_wp (Q : result -> Prop) k found eff s kok knf kcf :
+  (forall s' r, st_log s' = st_log s ++ [EReq k r] ->
+        (st_w s' = st_w s \/ (found = true /\ st_w s' = eff (st_w s))) -> Q (fail s')) ->
+  (found = true -> forall s', st_log s' = st_log s ++ [EReq k OOk] -> st_w s' = eff (st_w s) -> Q (kok s')) ->
+  (found = false -> forall s', st_log s' = st_log s ++ [EReq k ONotFound] -> st_w s' = st_w s -> Q (knf s')) ->
+  (found = true -> forall s', st_log s' = st_log s ++ [EReq k OConflict] -> st_w s' = st_w s -> Q (kcf s')) ->
+  Q (call_gen k found eff s kok knf kcf).
+Proof.
+  intros Hf Hok Hnf Hcf. unfold call_gen.
+  destruct (match st_f s with [] => SOk | x :: _ => x end).
+  - destruct found; cbn [negb]; [|apply Hnf; reflexivity].
+    destruct (checks_od k && _); [apply Hcf|apply Hok]; reflexivity.
+  - apply (Hf _ OFault); [reflexivity|now left].
+  - destruct found; cbn [negb]; [|apply Hnf; reflexivity].
+    destruct (checks_od k && _); [apply Hcf; reflexivity|].
+    apply (Hf _ OFault); [reflexivity|right; split; reflexivity].
+Qed.
+
 Lemma call_wp (Q : result -> Prop) k found eff s kok knf :
-  (forall w f, (w = st_w s \/ (found = true /\ w = eff (st_w s))) ->
-        Q (fail {| st_w := w; st_f := f; st_log := st_log s ++ [EReq k OFault] |})) ->
-  (found = true -> forall f, Q (kok {| st_w := eff (st_w s); st_f := f; st_log := st_log s ++ [EReq k OOk] |})) ->
-  (found = false -> forall f, Q (knf {| st_w := st_w s; st_f := f; st_log := st_log s ++ [EReq k ONotFound] |})) ->
+  (forall s' r, st_log s' = st_log s ++ [EReq k r] ->
+        (st_w s' = st_w s \/ (found = true /\ st_w s' = eff (st_w s))) -> Q (fail s')) ->
+  (found = true -> forall s', st_log s' = st_log s ++ [EReq k OOk] -> st_w s' = eff (st_w s) -> Q (kok s')) ->
+  (found = false -> forall s', st_log s' = st_log s ++ [EReq k ONotFound] -> st_w s' = st_w s -> Q (knf s')) ->
   Q (call k found eff s kok knf).
 Proof.
-  intros Hf Hok Hnf. unfold call.
-  destruct (match st_f s with [] => SOk | x :: _ => x end).
-  - destruct found; [apply Hok|apply Hnf]; reflexivity.
-  - apply Hf. now left.
-  - destruct found; [apply Hf; right; split; reflexivity|apply Hnf; reflexivity].
+  intros Hf Hok Hnf. unfold call. apply call_gen_wp; try assumption.
+  intros _ s' Hl Hw. apply (Hf s' OConflict Hl). now left.
 Qed.
 
 (** ** Conditions *)
@@ -140,12 +155,12 @@ Section Pass.
     intros Hk Heff Hok Hnf.
     assert (Hw : forall r, bad (EReq k r) = false) by (intros r; rewrite bad_req; destruct k; cbn in *; congruence).
     apply call_wp.
-    - intros w f Hwld. exists [EReq k OFault]. split; [reflexivity|]. split; [apply none_of_single, Hw|].
+    - intros s' r Hl Hwld. exists [EReq k r]. split; [exact Hl|]. split; [apply none_of_single, Hw|].
       cbn. destruct Hwld as [->|[_ ->]]; [reflexivity|apply Heff].
-    - intros _ f. eapply quiet_trans; [|apply Hok; reflexivity].
-      exists [EReq k OOk]. split; [reflexivity|]. split; [apply none_of_single, Hw|]. apply Heff.
-    - intros _ f. eapply quiet_trans; [|apply Hnf; reflexivity].
-      exists [EReq k ONotFound]. split; [reflexivity|]. split; [apply none_of_single, Hw|]. reflexivity.
+    - intros _ s' Hl Hw'. eapply quiet_trans; [|apply Hok; assumption].
+      exists [EReq k OOk]. split; [exact Hl|]. split; [apply none_of_single, Hw|]. rewrite Hw'. apply Heff.
+    - intros _ s' Hl Hw'. eapply quiet_trans; [|apply Hnf; assumption].
+      exists [EReq k ONotFound]. split; [exact Hl|]. split; [apply none_of_single, Hw|]. rewrite Hw'. reflexivity.
   Qed.
 
   Lemma same_od_id w : same_od w w. Proof. reflexivity. Qed.
@@ -236,7 +251,7 @@ Section Pass.
   Proof.
     intros H. unfold unpack. destruct (hash_eqb (p_hash p) (p_spec p)) eqn:Eh; [apply after_unpack_quiet|].
     destruct H as [H|(Hbp & Hbd & Hd)]; [discriminate|].
-    apply (quiet_trans s {| st_w := eff_pull (st_w s); st_f := st_f s;
+    apply (quiet_trans s {| st_w := eff_pull (st_w s); st_f := st_f s; st_d := st_d s; st_dirty := st_dirty s;
                             st_log := st_log s ++ [EPull (s_image (p_spec p))] |}).
     { exists [EPull (s_image (p_spec p))]. split; [reflexivity|]. split; [apply none_of_single, Hbp|apply same_od_pull]. }
     destruct (o_pull o) eqn:Ep; cbn; [|apply update_status_quiet].
@@ -290,8 +305,21 @@ Lemma call_ok Post k found eff s kok knf :
 Proof.
   intros Hok Hnf. apply call_wp.
   - intros. apply okpost_fail.
-  - intros Hf f. now apply Hok.
-  - intros Hf f. now apply Hnf.
+  - intros Hf s' _ Hw. now apply Hok.
+  - intros Hf s' _ Hw. now apply Hnf.
+Qed.
+
+Lemma call_gen_ok Post k found eff s kok knf kcf :
+  (found = true -> forall s', st_w s' = eff (st_w s) -> okpost Post (kok s')) ->
+  (found = false -> forall s', st_w s' = st_w s -> okpost Post (knf s')) ->
+  (found = true -> forall s', st_w s' = st_w s -> okpost Post (kcf s')) ->
+  okpost Post (call_gen k found eff s kok knf kcf).
+Proof.
+  intros Hok Hnf Hcf. apply call_gen_wp.
+  - intros. apply okpost_fail.
+  - intros Hf s' _ Hw. now apply Hok.
+  - intros Hf s' _ Hw. now apply Hnf.
+  - intros Hf s' _ Hw. now apply Hcf.
 Qed.
 
 (** final stored objects and requeue flag of a result *)
@@ -340,6 +368,19 @@ Section PassOk.
     eff_status (mark_unpacked (with_conds p (remove_cond CInvalid (p_conds p))))
                (eff_update (Some (spec_digest digest (p_spec p))) (ensure_od w)).
 
+  (** the retry loop: whatever the number of Conflicts, an error-free exit has written the template *)
+  Lemma update_loop_ok Post n t k : forall s,
+    (forall s', st_w s' = eff_update t (st_w s) -> okpost Post (k s')) ->
+    okpost Post (update_loop n t s k).
+  Proof.
+    induction n as [|n IH]; intros s Hk; cbn [update_loop].
+    - apply call_gen_ok; [intros _ s' Hw; now apply Hk|discriminate|].
+      intros _ s' Hw. apply call_ok; [|discriminate]. intros _ s2 Hw2. exact (okpost_fail _ _).
+    - apply call_gen_ok; [intros _ s' Hw; now apply Hk|discriminate|].
+      intros _ s' Hw. apply call_ok; [|discriminate]. intros _ s2 Hw2.
+      apply IH. intros s3 Hw3. apply Hk. now rewrite Hw3, Hw2, Hw.
+  Qed.
+
   Lemma deployment_reconcile_ok p s :
     okpost (fin (deployed p (st_w s)) false) (deployment_reconcile digest p s).
   Proof.
@@ -347,11 +388,11 @@ Section PassOk.
     assert (Hupd : forall s1 w1, st_w s1 = w1 ->
       okpost (fin (eff_status (mark_unpacked (with_conds p (remove_cond CInvalid (p_conds p))))
                               (eff_update (Some (spec_digest digest (p_spec p))) w1)) false)
-        (call KUpdateOD true (eff_update (Some (spec_digest digest (p_spec p)))) s1
+        (update_loop (pred retry_steps) (Some (spec_digest digest (p_spec p))) s1
           (fun s2 => call KListSet true (fun w => w) s2
              (fun s3 => call KListSlice true (fun w => w) s3
-                (fun s4 => unpacked (with_conds p (remove_cond CInvalid (p_conds p))) s4) fail) fail) fail)).
-    { intros s1 w1 Hw1. apply call_ok; [|discriminate]. intros _ s2 Hw2.
+                (fun s4 => unpacked (with_conds p (remove_cond CInvalid (p_conds p))) s4) fail) fail))).
+    { intros s1 w1 Hw1. apply update_loop_ok. intros s2 Hw2.
       apply call_ok; [|discriminate]. intros _ s3 Hw3.
       apply call_ok; [|discriminate]. intros _ s4 Hw4.
       rewrite <- Hw1, <- Hw2, <- Hw3, <- Hw4. apply unpacked_ok. }
@@ -514,9 +555,22 @@ Section PassInv.
     Iq (call k found eff s kok knf).
   Proof.
     intros Hs He Hok Hnf. apply call_wp.
-    - intros w f [->|[_ ->]]; unfold Iq; cbn; [assumption|now apply He].
-    - intros _ f. apply Hok; [reflexivity|]. cbn. now apply He.
-    - intros _ f. now apply Hnf.
+    - intros s' r _ [Hw|[_ Hw]]; unfold Iq; cbn; rewrite Hw; [assumption|now apply He].
+    - intros _ s' _ Hw. apply Hok; [exact Hw|]. rewrite Hw. now apply He.
+    - intros _ s' _ Hw. apply Hnf; [exact Hw|]. now rewrite Hw.
+  Qed.
+
+  Lemma call_gen_inv k found eff s kok knf kcf :
+    I (st_w s) -> (forall w, I w -> I (eff w)) ->
+    (forall s', I (st_w s') -> Iq (kok s')) -> (forall s', I (st_w s') -> Iq (knf s')) ->
+    (forall s', I (st_w s') -> Iq (kcf s')) ->
+    Iq (call_gen k found eff s kok knf kcf).
+  Proof.
+    intros Hs He Hok Hnf Hcf. apply call_gen_wp.
+    - intros s' r _ [Hw|[_ Hw]]; unfold Iq; cbn; rewrite Hw; [assumption|now apply He].
+    - intros _ s' _ Hw. apply Hok. rewrite Hw. now apply He.
+    - intros _ s' _ Hw. apply Hnf. now rewrite Hw.
+    - intros _ s' _ Hw. apply Hcf. now rewrite Hw.
   Qed.
 
   Lemma call_inv k found eff s kok knf :
@@ -543,16 +597,28 @@ Section PassInv.
     intros. now apply update_status_inv.
   Qed.
 
+  Lemma update_loop_inv n t k : forall s,
+    I (st_w s) -> (forall w, I w -> I (eff_update t w)) -> (forall s', I (st_w s') -> Iq (k s')) ->
+    Iq (update_loop n t s k).
+  Proof.
+    induction n as [|n IH]; intros s Hs He Hk; cbn [update_loop].
+    - apply call_gen_inv; [assumption|assumption|assumption|intros; now apply fail_inv|].
+      intros s1 H1. apply call_inv; [assumption|auto|intros; now apply fail_inv|intros; now apply fail_inv].
+    - apply call_gen_inv; [assumption|assumption|assumption|intros; now apply fail_inv|].
+      intros s1 H1. apply call_inv; [assumption|auto| |intros; now apply fail_inv].
+      intros s2 H2. now apply IH.
+  Qed.
+
   Lemma deployment_reconcile_inv p s :
     deployable fixed o = true -> p_spec p = p_spec p0 -> I (st_w s) -> Iq (deployment_reconcile digest p s).
   Proof.
     intros Hd Hp H. unfold deployment_reconcile. rewrite Hp.
     assert (Hupd : forall s1, I (st_w s1) ->
-      Iq (call KUpdateOD true (eff_update (Some (spec_digest digest (p_spec p0)))) s1
+      Iq (update_loop (pred retry_steps) (Some (spec_digest digest (p_spec p0))) s1
           (fun s2 => call KListSet true (fun w => w) s2
              (fun s3 => call KListSlice true (fun w => w) s3
-                (fun s4 => unpacked (with_conds p (remove_cond CInvalid (p_conds p))) s4) fail) fail) fail)).
-    { intros s1 H1. apply call_inv; [assumption|now apply I_update| |intros; now apply fail_inv].
+                (fun s4 => unpacked (with_conds p (remove_cond CInvalid (p_conds p))) s4) fail) fail))).
+    { intros s1 H1. apply update_loop_inv; [assumption|now apply I_update|].
       intros s2 H2. apply call_inv; [assumption|auto| |intros; now apply fail_inv].
       intros s3 H3. apply call_inv; [assumption|auto| |intros; now apply fail_inv].
       intros s4 H4. now apply unpacked_inv. }
@@ -631,7 +697,11 @@ End PassInv.
 
 (** ** The theorems of C16 *)
 
-Definition pass digest fixed o (s : st) : result := reconcile digest fixed o s.
+Definition pass_gen digest fixed o (s : st) : result := reconcile digest fixed o s.
+(** one Reconcile of the code as it is *)
+Definition pass digest o (s : st) : result := pass_gen digest true o s.
+(** ... and of the code before cb58cda (kept for the refutation of the constraints clause) *)
+Definition pass_v0 digest o (s : st) : result := pass_gen digest false o s.
 Definition stored_pkg (r : result) : pkg := w_pkg (st_w (r_st r)).
 
 (** events of the pass [r] that started in [s] *)
@@ -644,8 +714,8 @@ Section Theorems.
       and leaves the stored template (or the absence of an ObjectDeployment) as it is. *)
   Theorem not_deployable_no_deploy fixed o s :
     deployable fixed o = false ->
-    exists l, new_events s (pass digest fixed o s) l /\ none_of is_od_write l = true /\
-              od_tmpl (st_w (r_st (pass digest fixed o s))) = od_tmpl (st_w s).
+    exists l, new_events s (pass_gen digest fixed o s) l /\ none_of is_od_write l = true /\
+              od_tmpl (st_w (r_st (pass_gen digest fixed o s))) = od_tmpl (st_w s).
   Proof.
     intros Hd. apply (reconcile_quiet digest fixed o is_od_write); [reflexivity|].
     right. repeat split; auto.
@@ -656,34 +726,34 @@ Section Theorems.
 
   (** one instance per failure class; [fixed] arbitrary: they hold for the code as it is *)
   Theorem invalid_no_deploy_pull fixed o s : o_pull o = false ->
-    exists l, new_events s (pass digest fixed o s) l /\ none_of is_od_write l = true /\
-              od_tmpl (st_w (r_st (pass digest fixed o s))) = od_tmpl (st_w s).
+    exists l, new_events s (pass_gen digest fixed o s) l /\ none_of is_od_write l = true /\
+              od_tmpl (st_w (r_st (pass_gen digest fixed o s))) = od_tmpl (st_w s).
   Proof. intros H. apply not_deployable_no_deploy, not_stage. unfold stages_ok. now rewrite H. Qed.
 
   Theorem invalid_no_deploy_load fixed o s : o_load o = false ->
-    exists l, new_events s (pass digest fixed o s) l /\ none_of is_od_write l = true /\
-              od_tmpl (st_w (r_st (pass digest fixed o s))) = od_tmpl (st_w s).
+    exists l, new_events s (pass_gen digest fixed o s) l /\ none_of is_od_write l = true /\
+              od_tmpl (st_w (r_st (pass_gen digest fixed o s))) = od_tmpl (st_w s).
   Proof. intros H. apply not_deployable_no_deploy, not_stage. unfold stages_ok. rewrite H. now destruct (o_pull o). Qed.
 
   Theorem invalid_no_deploy_constraint_error fixed o s : cons_err o = true ->
-    exists l, new_events s (pass digest fixed o s) l /\ none_of is_od_write l = true /\
-              od_tmpl (st_w (r_st (pass digest fixed o s))) = od_tmpl (st_w s).
+    exists l, new_events s (pass_gen digest fixed o s) l /\ none_of is_od_write l = true /\
+              od_tmpl (st_w (r_st (pass_gen digest fixed o s))) = od_tmpl (st_w s).
   Proof.
     intros H. apply not_deployable_no_deploy, not_stage. unfold stages_ok. rewrite H.
     now destruct (o_pull o), (o_load o).
   Qed.
 
   Theorem invalid_no_deploy_config fixed o s : config_ok o = false ->
-    exists l, new_events s (pass digest fixed o s) l /\ none_of is_od_write l = true /\
-              od_tmpl (st_w (r_st (pass digest fixed o s))) = od_tmpl (st_w s).
+    exists l, new_events s (pass_gen digest fixed o s) l /\ none_of is_od_write l = true /\
+              od_tmpl (st_w (r_st (pass_gen digest fixed o s))) = od_tmpl (st_w s).
   Proof.
     intros H. apply not_deployable_no_deploy, not_stage. unfold stages_ok. rewrite H.
     now destruct (o_pull o), (o_load o), (cons_err o).
   Qed.
 
   Theorem invalid_no_deploy_render fixed o s : o_images o = false \/ o_render o = false ->
-    exists l, new_events s (pass digest fixed o s) l /\ none_of is_od_write l = true /\
-              od_tmpl (st_w (r_st (pass digest fixed o s))) = od_tmpl (st_w s).
+    exists l, new_events s (pass_gen digest fixed o s) l /\ none_of is_od_write l = true /\
+              od_tmpl (st_w (r_st (pass_gen digest fixed o s))) = od_tmpl (st_w s).
   Proof.
     intros H. apply not_deployable_no_deploy, not_stage. unfold stages_ok.
     destruct H as [H|H]; rewrite H; now destruct (o_pull o), (o_load o), (cons_err o), (config_ok o), (o_images o).
@@ -691,8 +761,8 @@ Section Theorems.
 
   (** unmet constraints: only the repaired Deploy *)
   Theorem invalid_no_deploy_unmet o s : unmet o = true ->
-    exists l, new_events s (pass digest true o s) l /\ none_of is_od_write l = true /\
-              od_tmpl (st_w (r_st (pass digest true o s))) = od_tmpl (st_w s).
+    exists l, new_events s (pass_gen digest true o s) l /\ none_of is_od_write l = true /\
+              od_tmpl (st_w (r_st (pass_gen digest true o s))) = od_tmpl (st_w s).
   Proof.
     intros H. apply not_deployable_no_deploy. unfold deployable, all_ok. rewrite H. now destruct (stages_ok o).
   Qed.
@@ -703,8 +773,8 @@ Section Theorems.
 
   Theorem unchanged_no_pull fixed o s :
     hash_eqb (p_hash (w_pkg (st_w s))) (p_spec (w_pkg (st_w s))) = true ->
-    exists l, new_events s (pass digest fixed o s) l /\ none_of busy l = true /\
-              od_tmpl (st_w (r_st (pass digest fixed o s))) = od_tmpl (st_w s).
+    exists l, new_events s (pass_gen digest fixed o s) l /\ none_of busy l = true /\
+              od_tmpl (st_w (r_st (pass_gen digest fixed o s))) = od_tmpl (st_w s).
   Proof.
     intros H. apply (reconcile_quiet digest fixed o busy).
     - intros k r. unfold busy. cbn. now rewrite !orb_false_r.
@@ -713,8 +783,8 @@ Section Theorems.
 
   Theorem paused_no_pull fixed o s :
     s_paused (p_spec (w_pkg (st_w s))) = true ->
-    exists l, new_events s (pass digest fixed o s) l /\ none_of busy l = true /\
-              od_tmpl (st_w (r_st (pass digest fixed o s))) = od_tmpl (st_w s).
+    exists l, new_events s (pass_gen digest fixed o s) l /\ none_of busy l = true /\
+              od_tmpl (st_w (r_st (pass_gen digest fixed o s))) = od_tmpl (st_w s).
   Proof.
     intros H. apply (reconcile_quiet digest fixed o busy).
     - intros k r. unfold busy. cbn. now rewrite !orb_false_r.
@@ -726,7 +796,7 @@ Section Theorems.
   Proof. unfold reach. rewrite andb_true_iff, !negb_true_iff. tauto. Qed.
 
   Theorem pull_failure_condition fixed o s :
-    let p := w_pkg (st_w s) in let r := pass digest fixed o s in
+    let p := w_pkg (st_w s) in let r := pass_gen digest fixed o s in
     reach p = true -> o_pull o = false -> r_err r = false ->
     p_conds (stored_pkg r) = set_cond (mk_cond p CUnpacked false RImagePullBackOff) (p_conds p) /\
     has_cond CUnpacked false RImagePullBackOff (p_conds (stored_pkg r)) = true /\
@@ -734,12 +804,12 @@ Section Theorems.
   Proof.
     intros p r Hreach Hpull He. destruct (reconcile_ok digest fixed o s He) as [[Hw Hrq] _].
     destruct (reach_split _ Hreach) as [Hpa Hh]. fold p in Hw, Hrq.
-    subst r. unfold stored_pkg, pass. rewrite Hw, Hrq. unfold ok_world, ok_unpack. fold p.
+    subst r. unfold stored_pkg, pass_gen. rewrite Hw, Hrq. unfold ok_world, ok_unpack. fold p.
     rewrite Hpa, Hh, Hpull, Hreach. cbn. repeat split. apply has_set.
   Qed.
 
   Theorem load_failure_condition fixed o s :
-    let p := w_pkg (st_w s) in let r := pass digest fixed o s in
+    let p := w_pkg (st_w s) in let r := pass_gen digest fixed o s in
     reach p = true -> o_pull o = true -> o_load o = false -> r_err r = false ->
     p_conds (stored_pkg r) =
       set_cond (mk_cond p CUnpacked true RUnpackSuccess) (set_cond (mk_cond p CInvalid true RLoadError) (p_conds p)) /\
@@ -748,14 +818,14 @@ Section Theorems.
   Proof.
     intros p r Hreach Hpull Hload He. destruct (reconcile_ok digest fixed o s He) as [[Hw Hrq] _].
     destruct (reach_split _ Hreach) as [Hpa Hh]. fold p in Hw, Hrq.
-    subst r. unfold stored_pkg, pass. rewrite Hw. unfold ok_world, ok_unpack, ok_deploy. fold p.
+    subst r. unfold stored_pkg, pass_gen. rewrite Hw. unfold ok_world, ok_unpack, ok_deploy. fold p.
     rewrite Hpa, Hh, Hpull, Hload. cbn. repeat split.
     rewrite has_set_other by discriminate. apply has_set.
   Qed.
 
   (** the repaired Deploy records unmet constraints durably *)
   Theorem constraints_failure_condition o s :
-    let p := w_pkg (st_w s) in let r := pass digest true o s in
+    let p := w_pkg (st_w s) in let r := pass_gen digest true o s in
     reach p = true -> o_pull o = true -> o_load o = true -> unmet o = true -> r_err r = false ->
     p_conds (stored_pkg r) =
       set_cond (mk_cond p CUnpacked true RUnpackSuccess) (set_cond (mk_cond p CInvalid true RConstraintsFailed) (p_conds p)) /\
@@ -764,7 +834,7 @@ Section Theorems.
   Proof.
     intros p r Hreach Hpull Hload Hun He. destruct (reconcile_ok digest true o s He) as [[Hw Hrq] _].
     destruct (reach_split _ Hreach) as [Hpa Hh]. fold p in Hw, Hrq.
-    subst r. unfold stored_pkg, pass. rewrite Hw. unfold ok_world, ok_unpack, ok_deploy, ok_rest, note_msgs. fold p.
+    subst r. unfold stored_pkg, pass_gen. rewrite Hw. unfold ok_world, ok_unpack, ok_deploy, ok_rest, note_msgs. fold p.
     rewrite Hpa, Hh, Hpull, Hload, msgs_of_nil, Hun. cbn. repeat split.
     rewrite has_set_other by discriminate. apply has_set.
   Qed.
@@ -778,7 +848,7 @@ Section Theorems.
       template is the render of the current spec, the hash is recorded, Unpacked=True and no
       Invalid condition remain.  For [fixed = false] "deployable" does not include the constraints. *)
   Theorem changed_template fixed o s :
-    let p := w_pkg (st_w s) in let r := pass digest fixed o s in
+    let p := w_pkg (st_w s) in let r := pass_gen digest fixed o s in
     reach p = true -> deployable fixed o = true -> r_err r = false ->
     od_tmpl (st_w (r_st r)) = Some (Some (spec_digest digest (p_spec p))) /\
     p_hash (stored_pkg r) = Some (p_spec p) /\
@@ -793,7 +863,7 @@ Section Theorems.
       split; [assumption|]. now apply negb_true_iff in H2. }
     destruct Hst as [Hst Hfx]. unfold stages_ok in Hst. rewrite !andb_true_iff in Hst.
     destruct Hst as [[[[[Hpull Hload] _] _] _] _].
-    subst r. unfold stored_pkg, pass. rewrite Hw. unfold ok_world, ok_unpack, ok_deploy, ok_rest. fold p.
+    subst r. unfold stored_pkg, pass_gen. rewrite Hw. unfold ok_world, ok_unpack, ok_deploy, ok_rest. fold p.
     rewrite Hpa, Hh, Hpull, Hload, Hfx. cbn [negb].
     split; [|split; [|split]].
     - rewrite od_tmpl_deployed. unfold note_msgs. now destruct (is_nil (msgs_of o)).
@@ -805,7 +875,7 @@ Section Theorems.
   (** An error-free pass that got past the pull went through Deploy with every stage it executed
       succeeding (the converse direction of the stage theorems). *)
   Theorem error_free_pass_stages fixed o s :
-    let p := w_pkg (st_w s) in let r := pass digest fixed o s in
+    let p := w_pkg (st_w s) in let r := pass_gen digest fixed o s in
     reach p = true -> r_err r = false -> o_pull o = true -> o_load o = true ->
     cons_err o = false /\ (fixed && unmet o = true \/ (config_ok o = true /\ o_images o = true /\ o_render o = true)).
   Proof.
@@ -815,7 +885,7 @@ Section Theorems.
 
   (** status.unpackedHash after an error-free pass *)
   Theorem pass_hash_ok fixed o s :
-    let p := w_pkg (st_w s) in let r := pass digest fixed o s in
+    let p := w_pkg (st_w s) in let r := pass_gen digest fixed o s in
     r_err r = false ->
     p_hash (stored_pkg r) =
       if s_paused (p_spec p) then p_hash p
@@ -823,7 +893,7 @@ Section Theorems.
       else if o_pull o then Some (p_spec p) else p_hash p.
   Proof.
     intros p r He. destruct (reconcile_ok digest fixed o s He) as [[Hw _] _]. fold p in Hw.
-    subst r. unfold stored_pkg, pass. rewrite Hw. unfold ok_world, ok_unpack, ok_deploy, ok_rest, deployed. fold p.
+    subst r. unfold stored_pkg, pass_gen. rewrite Hw. unfold ok_world, ok_unpack, ok_deploy, ok_rest, deployed. fold p.
     destruct (s_paused (p_spec p)); [reflexivity|].
     destruct (hash_eqb (p_hash p) (p_spec p)); [reflexivity|].
     destruct (o_pull o); cbn [negb]; [|reflexivity].
@@ -854,24 +924,25 @@ Section Theorems.
   Variable fixed : bool.
 
   (** digests of the specs that were current at a pass whose oracle satisfies [good] *)
-  Fixpoint goods_of (good : oracle -> bool) (steps : list step) (w : world) (f : list rstat) : list N :=
+  Fixpoint goods_of (good : oracle -> bool) (steps : list step) (w : world) (f : list rstat) (d : list bool) : list N :=
     match steps with
     | [] => []
-    | SEdit sp :: r => goods_of good r (edit sp w) f
-    | SFault n k :: r => goods_of good r w (arm (N.to_nat n) k f)
+    | SEdit sp :: r => goods_of good r (edit sp w) f d
+    | SFault n k :: r => goods_of good r w (arm (N.to_nat n) k f) d
+    | SDisturb n :: r => goods_of good r w f (armb (N.to_nat n) d)
     | SPass o :: r =>
         (if good o then [spec_digest digest (p_spec (w_pkg w))] else [])
-        ++ goods_of good r (st_w (r_st (do_pass digest fixed o w f))) []
+        ++ goods_of good r (st_w (r_st (do_pass digest fixed o w f d))) [] []
     end.
   Notation goods := (goods_of (deployable fixed)).
 
-  Lemma pass_od_ok G o w f :
+  Lemma pass_od_ok G o w f d :
     od_ok G w ->
     od_ok (G ++ (if deployable fixed o then [spec_digest digest (p_spec (w_pkg w))] else []))
-          (st_w (r_st (do_pass digest fixed o w f))).
+          (st_w (r_st (do_pass digest fixed o w f d))).
   Proof.
     intros H. unfold do_pass.
-    set (s := {| st_w := w; st_f := f; st_log := [] |}).
+    set (s := {| st_w := w; st_f := f; st_d := d; st_dirty := false; st_log := [] |}).
     set (G' := G ++ (if deployable fixed o then [spec_digest digest (p_spec (w_pkg w))] else [])).
     apply (reconcile_inv digest fixed o (od_ok G') (w_pkg w)).
     - intros p w' Hw'. exact Hw'.
@@ -884,48 +955,53 @@ Section Theorems.
     - cbn. unfold G'. now apply od_ok_mono.
   Qed.
 
-  (** At every point of every history (edits, faults, passes with arbitrary oracle outcomes): the
+  (** At every point of every history (edits, faults, third-party writes, passes with arbitrary oracle outcomes): the
       stored ObjectDeployment's template is empty or the render of a spec that was current at a
       pass where the package was deployable.  With [fixed = true] deployable means valid and
       admissible ([all_ok]); with [fixed = false] (the code as it is) it only means that every
       stage other than the constraint check passes ([stages_ok]). *)
-  Theorem od_history steps : forall w f G,
-    od_ok G w -> od_ok (G ++ goods steps w f) (final digest fixed steps w f).
+  Theorem od_history steps : forall w f d G,
+    od_ok G w -> od_ok (G ++ goods steps w f d) (final digest fixed steps w f d).
   Proof.
-    induction steps as [|x steps IH]; intros w f G H; cbn.
+    induction steps as [|x steps IH]; intros w f d G H; cbn.
     - now rewrite app_nil_r.
-    - destruct x as [sp|n k|o].
+    - destruct x as [sp|n k|n|o].
       + apply IH. unfold od_ok, od_tmpl, edit in *. destruct (spec_eqb sp (p_spec (w_pkg w))); exact H.
+      + apply IH. exact H.
       + apply IH. exact H.
       + rewrite app_assoc. apply IH. now apply pass_od_ok.
   Qed.
 
   Corollary od_history_init steps sp :
-    od_ok (goods steps (init_world sp) []) (final digest fixed steps (init_world sp) []).
-  Proof. apply (od_history steps (init_world sp) [] []). exact Logic.I. Qed.
+    od_ok (goods steps (init_world sp) [] []) (final digest fixed steps (init_world sp) [] []).
+  Proof. apply (od_history steps (init_world sp) [] [] []). exact Logic.I. Qed.
 End Theorems.
 
 (** ** Passes without API faults: a pull failure, a load failure and (repaired Deploy) an unmet
     constraint end without error, so their condition is persisted. *)
 
+(** no injected fault, no third-party write to come, in-memory copy up to date *)
+Definition calm (s : st) : Prop := st_f s = [] /\ st_d s = [] /\ st_dirty s = false.
+
 Lemma call_nofault (Q : result -> Prop) k found eff s kok knf :
-  st_f s = [] ->
-  (found = true -> forall s', st_f s' = [] -> st_w s' = eff (st_w s) -> Q (kok s')) ->
-  (found = false -> forall s', st_f s' = [] -> st_w s' = st_w s -> Q (knf s')) ->
+  calm s ->
+  (found = true -> forall s', calm s' -> st_w s' = eff (st_w s) -> Q (kok s')) ->
+  (found = false -> forall s', calm s' -> st_w s' = st_w s -> Q (knf s')) ->
   Q (call k found eff s kok knf).
 Proof.
-  intros Hf Hok Hnf. unfold call. rewrite Hf. cbn [tl].
-  destruct found; [apply Hok|apply Hnf]; reflexivity.
+  intros (Hf & Hd & Hdirty) Hok Hnf. unfold call, call_gen. rewrite Hf, Hd, Hdirty. cbn [tl andb orb].
+  rewrite andb_false_r.
+  destruct found; cbn [negb]; [apply Hok|apply Hnf]; try reflexivity; repeat split; cbn; now destruct (reads_od k).
 Qed.
 
-Lemma update_status_nofault p rq s : st_f s = [] -> r_err (update_status p rq s) = false.
+Lemma update_status_nofault p rq s : calm s -> r_err (update_status p rq s) = false.
 Proof. intros Hf. unfold update_status. apply call_nofault; [assumption| |discriminate]. reflexivity. Qed.
 
 Lemma status_reconcile_nofault s k :
-  st_f s = [] -> (forall s', st_f s' = [] -> r_err (k s') = false) -> r_err (status_reconcile s k) = false.
+  calm s -> (forall s', calm s' -> r_err (k s') = false) -> r_err (status_reconcile s k) = false.
 Proof. intros Hf Hk. unfold status_reconcile. apply call_nofault; [assumption| |]; intros _ s' Hf' _; now apply Hk. Qed.
 
-Lemma unpacked_nofault p s : st_f s = [] -> r_err (unpacked p s) = false.
+Lemma unpacked_nofault p s : calm s -> r_err (unpacked p s) = false.
 Proof.
   intros Hf. unfold unpacked, after_unpack. apply status_reconcile_nofault; [assumption|].
   intros. now apply update_status_nofault.
@@ -938,14 +1014,14 @@ Section NoFault.
 
   (** without faults a reachable pass arrives at the unpack reconciler with the stored Package *)
   Lemma reconcile_nofault_unpack (Q : result -> Prop) s :
-    st_f s = [] -> reach (w_pkg (st_w s)) = true ->
-    (forall s', st_f s' = [] -> Q (unpack digest fixed o (w_pkg (st_w s)) s')) ->
+    calm s -> reach (w_pkg (st_w s)) = true ->
+    (forall s', calm s' -> Q (unpack digest fixed o (w_pkg (st_w s)) s')) ->
     Q (reconcile digest fixed o s).
   Proof.
     intros Hf Hreach HQ. destruct (reach_split _ Hreach) as [Hpa _].
     unfold Package.reconcile. apply call_nofault; [assumption| |discriminate].
     intros _ s1 Hf1 Hw1. rewrite Hw1, Hpa.
-    assert (Hk : forall s2, st_f s2 = [] -> st_w s2 = st_w s ->
+    assert (Hk : forall s2, calm s2 -> st_w s2 = st_w s ->
       Q (if Bool.eqb false (match w_od (st_w s2) with Some d => d_paused d | None => false end)
          then unpack digest fixed o (w_pkg (st_w s)) s2
          else call KPauseOD (is_some (w_od (st_w s2))) (eff_pause false) s2
@@ -958,33 +1034,33 @@ Section NoFault.
   Qed.
 
   Theorem nofault_pull_failure s :
-    st_f s = [] -> reach (w_pkg (st_w s)) = true -> o_pull o = false ->
-    r_err (pass digest fixed o s) = false.
+    calm s -> reach (w_pkg (st_w s)) = true -> o_pull o = false ->
+    r_err (pass_gen digest fixed o s) = false.
   Proof.
-    intros Hf Hreach Hp. unfold pass. apply reconcile_nofault_unpack; [assumption|assumption|].
+    intros Hf Hreach Hp. unfold pass_gen. apply reconcile_nofault_unpack; [assumption|assumption|].
     intros s' Hf'. destruct (reach_split _ Hreach) as [_ Hh]. unfold unpack. rewrite Hh, Hp. cbn [negb].
     now apply update_status_nofault.
   Qed.
 
   Theorem nofault_load_failure s :
-    st_f s = [] -> reach (w_pkg (st_w s)) = true -> o_pull o = true -> o_load o = false ->
-    r_err (pass digest fixed o s) = false.
+    calm s -> reach (w_pkg (st_w s)) = true -> o_pull o = true -> o_load o = false ->
+    r_err (pass_gen digest fixed o s) = false.
   Proof.
-    intros Hf Hreach Hp Hl. unfold pass. apply reconcile_nofault_unpack; [assumption|assumption|].
+    intros Hf Hreach Hp Hl. unfold pass_gen. apply reconcile_nofault_unpack; [assumption|assumption|].
     intros s' Hf'. destruct (reach_split _ Hreach) as [_ Hh]. unfold unpack, deploy. rewrite Hh, Hp, Hl. cbn [negb].
     now apply unpacked_nofault.
   Qed.
 End NoFault.
 
 Theorem nofault_unmet digest o s :
-  st_f s = [] -> reach (w_pkg (st_w s)) = true -> o_pull o = true -> o_load o = true ->
+  calm s -> reach (w_pkg (st_w s)) = true -> o_pull o = true -> o_load o = true ->
   cons_err o = false -> unmet o = true ->
-  r_err (pass digest true o s) = false.
+  r_err (pass_gen digest true o s) = false.
 Proof.
-  intros Hf Hreach Hp Hl Hce Hun. unfold pass. apply reconcile_nofault_unpack; [assumption|assumption|].
+  intros Hf Hreach Hp Hl Hce Hun. unfold pass_gen. apply reconcile_nofault_unpack; [assumption|assumption|].
   intros s' Hf'. destruct (reach_split _ Hreach) as [_ Hh]. unfold unpack, deploy. rewrite Hh, Hp, Hl. cbn [negb].
   unfold cons_err in Hce. apply orb_false_iff in Hce. destruct Hce as [Hr Hue]. apply negb_false_iff in Hr. rewrite Hr. cbn [negb].
-  assert (Hrest : forall msgs s2, st_f s2 = [] -> msgs <> [] ->
+  assert (Hrest : forall msgs s2, calm s2 -> msgs <> [] ->
             r_err (deploy_rest digest true o (w_pkg (st_w s)) msgs s2) = false).
   { intros msgs s2 Hf2 Hm. unfold deploy_rest. destruct msgs; [congruence|]. cbn. now apply unpacked_nofault. }
   unfold unmet, unique_unmet, unique_err in *. destruct (o_unique o) as [l|] eqn:Eu.
@@ -995,7 +1071,29 @@ Proof.
   - apply Hrest; [exact Hf'|]. rewrite orb_false_r in Hun. destruct (o_unmet o); [discriminate|congruence].
 Qed.
 
-(** ** The defect: unmet constraints do not block the code as it is *)
+(** ** Conflicts: a third party writes the ObjectDeployment between the reconciler's read and its
+    Update.  [changed_template], [od_history] and all other theorems above quantify over every
+    schedule of third-party writes ([st_d], [st_dirty]); here is the retry loop on its own. *)
+
+(** However many of the (at most [n]+1) attempts are answered with Conflict, an exit of the loop
+    into its continuation has stored the template [t] (when there is an ObjectDeployment). *)
+Theorem update_loop_writes n t (k : st -> result) (P : result -> Prop) s :
+  (forall s', od_tmpl (st_w s') = option_map (fun _ => t) (w_od (st_w s)) -> w_pkg (st_w s') = w_pkg (st_w s) -> P (k s')) ->
+  (forall s', P (fail s')) ->
+  P (update_loop n t s k).
+Proof.
+  revert s. induction n as [|n IH]; intros s Hk Hfail; cbn [update_loop].
+  - apply call_gen_wp; [intros; apply Hfail| |discriminate|].
+    + intros _ s' _ Hw. apply Hk; rewrite Hw; unfold od_tmpl, eff_update; destruct (w_od (st_w s)) eqn:E; cbn; rewrite ?E; reflexivity.
+    + intros _ s' _ Hw. apply call_wp; [intros; apply Hfail|intros; apply Hfail|discriminate].
+  - apply call_gen_wp; [intros; apply Hfail| |discriminate|].
+    + intros _ s' _ Hw. apply Hk; rewrite Hw; unfold od_tmpl, eff_update; destruct (w_od (st_w s)) eqn:E; cbn; rewrite ?E; reflexivity.
+    + intros _ s' _ Hw. apply call_wp; [intros; apply Hfail| |discriminate].
+      intros _ s2 _ Hw2. apply IH; [|assumption]. intros s3 H3 H4. apply Hk; [now rewrite H3, Hw2, Hw|now rewrite H4, Hw2, Hw].
+Qed.
+
+(** the code before cb58cda *)
+(** ** The defect fixed by cb58cda: unmet constraints did not block Deploy *)
 
 Definition wit_digest (i c k : N) : N := 1 + i + 10 * c + 100 * k.
 Definition wit_spec : spec := {| s_image := 1; s_config := 0; s_comp := 0; s_paused := false |}.
@@ -1003,11 +1101,11 @@ Definition wit_spec : spec := {| s_image := 1; s_config := 0; s_comp := 0; s_pau
 Definition wit_oracle : oracle :=
   {| o_pull := true; o_load := true; o_range_ok := true; o_unmet := [KPlatform]; o_unique := None;
      o_config := CfgOk; o_images := true; o_render := true |}.
-Definition wit_start : st := {| st_w := init_world wit_spec; st_f := []; st_log := [] |}.
+Definition wit_start : st := {| st_w := init_world wit_spec; st_f := []; st_d := []; st_dirty := false; st_log := [] |}.
 
 Theorem constraints_block_refuted :
   exists (o : oracle) (s : st),
-    let r := pass wit_digest false o s in
+    let r := pass_gen wit_digest false o s in
     unmet o = true /\ r_err r = false /\
     existsb is_od_write (st_log (r_st r)) = true /\
     od_tmpl (st_w (r_st r)) = Some (Some (spec_digest wit_digest (p_spec (w_pkg (st_w s))))) /\
@@ -1019,5 +1117,5 @@ Proof. exists wit_oracle, wit_start. vm_compute. repeat split. Qed.
 (** ... and hence the history invariant with "deployable = valid and admissible" fails for it *)
 Theorem od_history_refuted :
   exists steps sp,
-    od_okb (goods_of wit_digest false all_ok steps (init_world sp) []) (final wit_digest false steps (init_world sp) []) = false.
+    od_okb (goods_of wit_digest false all_ok steps (init_world sp) [] []) (final wit_digest false steps (init_world sp) [] []) = false.
 Proof. exists [SPass wit_oracle], wit_spec. vm_compute. reflexivity. Qed.
